@@ -12,7 +12,7 @@ from harness.props.c04 import compare_factor
 OBLIGATIONS = [
     "PgmVerif.C06_counts_den", "PgmVerif.C06_counts_perm", "PgmVerif.C06_counts_parent_order",
     "PgmVerif.C06_mle_closed_form", "PgmVerif.C06_bayes_closed_form", "PgmVerif.C06_fitted_valid",
-    "PgmVerif.C06_mle_weight_scale",
+    "PgmVerif.C06_mle_weight_scale", "PgmVerif.C06_bayes_zero_prior",
 ]
 PARTIAL = ["EM monotonicity of the observed-data likelihood and EM = MLE without latents are decided by the correspondence "
            "(likelihood recomputed exactly by the Lean model after 1..4 iterations), not by a theorem",
